@@ -60,6 +60,8 @@ type Enc struct {
 	CriticalOnSupported bool
 	// AkaOrder, when non-nil, is a permutation applied to the attribute list of every AKA' packet.
 	AkaOrder []int
+	// AkaGeneric: AKA' attributes of types outside the model are encoded as type | length | value instead of being refused
+	AkaGeneric bool
 	// NoCPRBit keeps the reserved bit of configuration attributes clear.
 	NoCPRBit bool
 	// EAPLib: separate liberty stream for EAP-level reserved fields (AKA' reserved octets).
@@ -74,7 +76,9 @@ type Enc struct {
 	PayloadOffsets []int
 }
 
-func (e *Enc) mark(off, w int, kind string) { e.Fields = append(e.Fields, Field{Off: off, Width: w, Kind: kind}) }
+func (e *Enc) mark(off, w int, kind string) {
+	e.Fields = append(e.Fields, Field{Off: off, Width: w, Kind: kind})
+}
 
 func (e *Enc) u8(v uint8, kind string) {
 	e.mark(len(e.b), 1, kind)
